@@ -261,6 +261,15 @@ def r3_map_features(ctx):
         unit = kws.get("unit", "")
         if key is None or unit not in SI:
             raise Undecided(f"{f.name}: cannot determine value/unit")
+        # a plain local alias of the fitted value is followed to its use
+        par_ = getattr(valnode, "_parent", None)
+        if isinstance(par_, ast.Assign) and par_.value is valnode and len(
+                par_.targets) == 1 and isinstance(par_.targets[0], ast.Name):
+            al_ = par_.targets[0].id
+            uses_ = [n_ for n_ in ast.walk(f) if isinstance(n_, ast.Name)
+                     and n_.id == al_ and isinstance(n_.ctx, ast.Load)]
+            if len(uses_) == 1:
+                valnode = uses_[0]
         # the factor applied: the whole product the fitted value is part of
         top = valnode
         while isinstance(getattr(top, "_parent", None), ast.BinOp) and \
@@ -448,9 +457,25 @@ def r5_progress_and_enum(ctx):
             and norm(cond.orelse) == "None"
         ctx.check(guard_ok, cb, "callback only if given",
                   "callback is invoked although none was given")
-        body = norm(inner) if inner is not None else ""
         x = lam.args.args[0].arg if isinstance(lam, ast.Lambda) and \
             lam.args.args else "x"
+        if inner is not None:
+            # free names of the lambda that are bound once in load_data
+            # (e.g. a hoisted len(paths)) are replaced by their value
+            from ..symres import Resolver as _Res2
+            from ..astutil import clone as _clone
+            R_ = _Res2(ld)
+            inner2 = _clone(inner)
+            for nm_ in ast.walk(inner2):
+                if isinstance(nm_, ast.Name) and nm_.id not in (
+                        x, "callback", idx, lst):
+                    d_ = R_.defs.get(nm_.id, [])
+                    if len(d_) == 1 and d_[0] is not None and not isinstance(
+                            d_[0], ast.Lambda):
+                        nm_.id = f"({norm(d_[0])})"
+            body = norm(ast.parse(ast.unparse(inner2), mode="eval").body)
+        else:
+            body = ""
         good = {f"callback(({idx} + {x}) / len({lst}))",
                 f"callback(({x} + {idx}) / len({lst}))"}
         ctx.check(body in good, cb, f"progress = {body}",
